@@ -228,6 +228,11 @@ func c10InputAlias(c *core.Ctx, d c10Decoder, r *core.RNG) {
 		return
 	}
 	core.Guard(func() { e2 = d.dec(ref, append([]byte{}, in...)) })
+	// the buffer stays the caller's, whether the decode succeeded or not
+	if !bytes.Equal(B, in) || !bytes.Equal(arena[:pre], make([]byte, pre)) || !bytes.Equal(arena[pre+len(in):], make([]byte, post)) {
+		c.Violate("C10|input-modified|"+d.name, "%s changed the buffer it was decoded from (or the bytes around it): %x -> %x", d.name, in, B)
+		return
+	}
 	if e1 != nil || e2 != nil {
 		return
 	}
